@@ -36,7 +36,7 @@ def class_obligations(run, lexmod):
     m = cc.minus(ws_bom, ign)
     e3(run, 'class.whitespace_subset_ignore', not m, 'ES5 WhiteSpace (Unicode %s) minus t_ignore = {%s}' % (
         sets['unicode_version'], cc.show(m)), witness=m[:1] and chr(m[0][0]), required='all ES5 white space is skipped')
-    ltset = cc.from_regex(Lexer.t_LINE_TERMINATOR)
+    ltset = cc.from_regex(cc.rule_pattern(Lexer.t_LINE_TERMINATOR))
     e3(run, 'class.line_terminator_chars', ltset == sets['LineTerminator'],
        't_LINE_TERMINATOR single characters = {%s}' % cc.show(ltset), witness=cc.show(cc.union(cc.minus(ltset, sets['LineTerminator']), cc.minus(sets['LineTerminator'], ltset))),
        required='LF, CR, LS, PS')
@@ -53,7 +53,7 @@ def class_obligations(run, lexmod):
     e3(run, 'class.regex_ignore_subset_ignore', not cc.minus(rign, ign), 't_regex_ignore within t_ignore')
     # line-terminator *sequences* and the split used for counting: exhaustive over short strings
     alpha = ['a', '\n', '\r', ' ', ' ']
-    rx = re.compile(Lexer.t_LINE_TERMINATOR)
+    rx = re.compile(cc.rule_pattern(Lexer.t_LINE_TERMINATOR))
     bad = None
     n = 0
     for L in range(1, 4):
@@ -83,7 +83,7 @@ def class_obligations(run, lexmod):
        '(all %d strings of length <= 6 over the same alphabet)' % n, witness=bad)
     # comments: regex language = ES5 comment language on all short strings over a separating alphabet
     calpha = ['/', '*', 'a', '\n', ' ']
-    lc, bc = re.compile(Lexer.t_LINE_COMMENT), re.compile(Lexer.t_BLOCK_COMMENT)
+    lc, bc = re.compile(cc.rule_pattern(Lexer.t_LINE_COMMENT)), re.compile(cc.rule_pattern(Lexer.t_BLOCK_COMMENT))
     bad = None
     n = 0
     for L in range(0, 8):
